@@ -274,9 +274,9 @@ def main(argv=None):
     with common.Pool() as pool:
         cases = [{"seed": a.seed * 100 + i, "names": [s], "file": "f", "file2": s + "2"} for i, s in enumerate(SPECIAL)]
         cases += [{"seed": a.seed * 100 + 500 + i, "names": ["d"], "file": s, "file2": "g"} for i, s in enumerate(SPECIAL)]
-        cases += [gen_case(a.seed * 1_000_000 + i) for i in range(n)]
-        for c in cases[:2]:
-            c["want_sample"] = True
+        import itertools
+
+        cases = common.with_samples(itertools.chain(cases, (gen_case(a.seed * 1_000_000 + i) for i in range(n))), 2)
         for case, res in pool.map(run_case, cases, deadline=deadline, chunksize=8):
             ev.add_run(res)
             for v in res["violations"]:
